@@ -199,6 +199,10 @@ pub fn gen_case(prop: &str, seed: u64, idx: u64, tier: &str) -> AnyCase {
         // (uncontrolled; the oracle - exact read-back - does not depend on the schedule)
         case.mt_threads = rng.range(1, 16) as u8;
     }
+    if matches!(prop, "C01" | "C02" | "C06" | "C07" | "C08" | "C09") && rng.chance(1, 12) {
+        // a destination that delivers only what was flushed: a write that reports success must have flushed it all
+        case.sink.commit_on_flush = true;
+    }
     if matches!(prop, "C01" | "C02" | "C06" | "C07" | "C08" | "C09") && case.mt_threads == 0 && rng.chance(1, 20) {
         // F5 inside the content checks: one sink operation fails once. The write may fail (whether it must is C14's
         // business, such runs are skipped here) - but if it reports success, the file has to be right all the same
@@ -249,6 +253,9 @@ fn pipe_stats(case: &PipeCase, out: &pipesim::WriteOutcome) -> RunStats {
     st.counters.insert(src, 1);
     st.counters
         .insert(if case.multipass { "pass:two".into() } else { "pass:single".into() }, 1);
+    if case.sink.commit_on_flush {
+        st.counters.insert("sink:delivers_only_what_was_flushed".into(), 1);
+    }
     st
 }
 
@@ -393,8 +400,10 @@ pub fn shrink_pipe(c: &PipeCase) -> Vec<PipeCase> {
     }
     push(&|n| n.sink = SinkFaults {
         fail: n.sink.fail.clone(),
+        commit_on_flush: n.sink.commit_on_flush,
         ..Default::default()
     });
+    push(&|n| n.sink.commit_on_flush = false);
     push(&|n| n.read = ReadFaults::default());
     push(&|n| n.mt_threads = 0);
     push(&|n| n.source = Source::SerialIter);
